@@ -497,6 +497,18 @@ impl State {
                 // as soon as it has its new name, the cleanup thread can compress or remove it.
                 current_write.flush()?;
 
+                // needed to revert the first steps if the new file cannot be opened
+                let current_file_existed = current_path.exists();
+                let (o_previous_timestamp, o_previous_index) = match rotation_state.naming_state {
+                    NamingState::Timestamps {
+                        current_timestamp: ts,
+                        ..
+                    } => (Some(ts), None),
+                    NamingState::NumbersRCurrent(idx) | NamingState::NumbersDirect(idx) => {
+                        (None, Some(idx))
+                    }
+                };
+
                 let infix = match rotation_state.naming_state {
                     NamingState::Timestamps {
                         current_timestamp: ref mut ts,
@@ -529,7 +541,47 @@ impl State {
                         numbers::number_infix(*idx_state)
                     }
                 };
-                let (new_write, new_path) = open_log_file(&self.config, Some(&infix))?;
+                let (new_write, new_path) = match open_log_file(&self.config, Some(&infix)) {
+                    Ok(opened) => opened,
+                    Err(e) => {
+                        // We continue to write to the previous file. If it was renamed already,
+                        // it must get its name back: with the name of a rotated file
+                        // it would be compressed or removed by the cleanup while we write to it.
+                        if !rotation_state.naming_state.writes_direct()
+                            && current_file_existed
+                            && !current_path.exists()
+                        {
+                            if let Some(renamed_file) =
+                                list_and_cleanup::list_of_log_and_compressed_files(
+                                    &self.config.file_spec,
+                                    &rotation_state.naming_state.infix_filter(),
+                                )
+                                .into_iter()
+                                .next()
+                            {
+                                if std::fs::rename(renamed_file, &*current_path).is_ok() {
+                                    match rotation_state.naming_state {
+                                        NamingState::Timestamps {
+                                            current_timestamp: ref mut ts,
+                                            ..
+                                        } => {
+                                            if let Some(previous_timestamp) = o_previous_timestamp {
+                                                *ts = previous_timestamp;
+                                            }
+                                        }
+                                        NamingState::NumbersRCurrent(ref mut idx)
+                                        | NamingState::NumbersDirect(ref mut idx) => {
+                                            if let Some(previous_index) = o_previous_index {
+                                                *idx = previous_index;
+                                            }
+                                        }
+                                    }
+                                }
+                            }
+                        }
+                        return Err(e.into());
+                    }
+                };
 
                 *current_write = new_write;
                 *current_path = new_path;
